@@ -88,6 +88,26 @@ NOTES.update({
     "C18_o": "class names were unique across modules: classes of the same name in the fixtures module and in `__main__`, the class actually used is logged and checked",
     "C20_p": "instance tags were read right after creation: every second default-tag instance is first looked at after the next change of a class default",
 })
+NOTES.update({
+    "C01_q": "histories of tens of operations: a system switched off and on 5000 / 70000 times (`churn`; only the last round trip is logged, the others leave the registry as it is)",
+    "C01_r": "C01's histories had no activity windows: histories whose windows close while the model runs",
+    "C02_q": "one model per program: a second model alive at the same time registers systems under the same ids with shifted windows and is stepped in between",
+    "C04_r": "NOT detected - outside the quantifier (needs a component whose `agent` field names another resident, e.g. a copy.copy of the parent's component: C03 / C04 assume every component instance belongs to the agent that carries it)",
+    "C07_q": "models were built by calling their class: configurations decoded from a JSON description that the model keeps a list of, every copy from the same file",
+    "C07_r": "NOT detected by C07 - it is C18's defect class (classes memoised by name only; C18's check detects the same edit, C18_o)",
+    "C09_q": "C09's worlds had no array-sourced layer that the caller keeps writing to: added",
+    "C09_r": "get_cell was called with all three coordinates except in line worlds: trailing zeros are left out in every kind of world",
+    "C10_r": "grid worlds without agents: none, one or two residents",
+    "C12_q": "NOT detected - outside the quantifier (a second spatial world attached to the same Model beside its environment)",
+    "C12_r": "all coordinates were always passed: trailing zeros are left out every other call (move, move_to, add_agent, get_agents_at)",
+    "C13_q": "all agents were plain `Agent` instances: every third one is of a subclass whose class carries components of two of the template types",
+    "C14_r": "first elements were truthy: collections starting with None, 0 / False, the empty string",
+    "C15_q": "failing executions raised the fixture's own exception: StopIteration (and the library's documented errors - which led to defect D9 and finding F7)",
+    "C15_r": "selections were a name or a list: tuples of one and two names",
+    "C16_r": "grid values were lists: one-shot iterables (generator, map, iter)",
+    "C18_r": "the stock JsonDecoder only: a user-written decoder (extension point open_file) that parses a description once, and descriptions decoded again",
+    "C19_r": "no keyword-like names: `in`, `in_`, `class`, `class_`, `None`, substrings of NONE",
+})
 ROUNDS = "abcdefghijklmnopqrstuvwxyz"
 
 
@@ -119,13 +139,13 @@ def main():
         firsts[rnd] = firsts.get(rnd, 0) + (1 if missed else 0)
     head = ("\n### 11.5 Independently seeded changes (`/verif/seeded/<id>/`)\n\n"
             f"{total} changes were produced in {max(firsts)} rounds by fresh sub-agents that saw only the text of one property and a scratch worktree "
-            "(two per property and round; ids `_a`,`_b` = round 1, `_c`,`_d` = round 2, `_e`,`_f` = round 3, `_g`,`_h` = round 4, `_i`,`_j` = round 5, `_k`,`_l` = round 6, `_m`,`_n` = round 7, `_o`,`_p` = round 8; the agents of later rounds were told "
+            "(two per property and round; ids `_a`,`_b` = round 1, `_c`,`_d` = round 2, `_e`,`_f` = round 3, `_g`,`_h` = round 4, `_i`,`_j` = round 5, `_k`,`_l` = round 6, `_m`,`_n` = round 7, `_o`,`_p` = round 8, `_q`,`_r` = round 9; the agents of later rounds were told "
             "what the earlier rounds had produced and asked for something different; round 4 was asked to stay strictly inside the quantifier text, "
-            "round 5 to look for the least obvious failure, round 6 to prefer code no earlier change had touched, round 7 to look for interactions of two features and boundary values, round 8 to write refactorings and small features that drop something the old code did implicitly). Each passes the 110 tests, and its demonstration fails with the change and passes without it "
+            "round 5 to look for the least obvious failure, round 6 to prefer code no earlier change had touched, round 7 to look for interactions of two features and boundary values, round 8 to write refactorings and small features that drop something the old code did implicitly, round 9 to start from a realistic user model). Each passes the 110 tests, and its demonstration fails with the change and passes without it "
             "(re-confirmed by `tools/seedcheck.py import`). `tools/seedcheck.py run` applies a patch to `/repo`, runs the property's quick check "
             "and undoes it (`git checkout -- .`); `run --scratch` does the same on a scratch copy (`VERIF_REPO`) so that runs can go in parallel. "
             f"**{own} of the {total} are detected by the quick check of their own property** (`result_quick.json`, current checks), {other} by the check of the "
-            f"property whose defect class it is (`C17_j`, by C04); the {outside} that are not detected need a "
+            f"property whose defect class it is (`C17_j` by C04, `C07_r` by C18); the {outside} that are not detected need a "
             "situation outside the property's quantifier and are marked in the table. "
             "The checks as they stood when a round arrived missed " + ", ".join(f"{firsts[r]} of round {r}" for r in sorted(firsts)) + " (`result_first.json`); each miss was a gap in what the *drivers* "
             "exercised, closed as noted - the specifications' obligations were not changed for any of them and no check was loosened. "
